@@ -296,7 +296,7 @@ def gen_call(t: Tape, idx: int, corpus: list, heavy: bool = False) -> dict:
         c["mode"] = mode
         c["initial"] = None
         if mode != "content" or t.choose(2, "wr.over"):
-            c["initial"] = doc_small(t, m + "i", t.pick(["canonical", "lenient", "frontmatter"], "wr.init"))
+            c["initial"] = doc_small(t, m + "i", t.pick(["canonical", "lenient", "frontmatter", "sectioned", "sectioned"], "wr.init"))
         if mode == "changes":
             a["changes"] = t.pick([{"MARK": "z"}, {"META.STATUS": "ACTIVE", "ADDED": ["p", 1]}, {"K0": {"$op": "DELETE"}},
                                    {"META": {"VERSION": "9"}, "N": None}], "wr.ch")
